@@ -68,6 +68,7 @@ def check(m, run):
     from .. import skel_drivers as _sdt
     _sdt.trm2(m, run)      # every kind of trim a file can carry is accepted by the setter the importers use
     _sdt.jr2(m, run)       # dictionary (JSON / cfg / yaml) round trip of a rational curve, trimmed surface and volume through the real classes
+    _sdt.jr3(m, run)       # ... and the JSON file functions themselves on single shapes and containers (json modelled as a function on plain data)
 
 
 def aggregate_after_loop(m, run):
